@@ -1,3 +1,4 @@
 import SC.Audit
 import SC.Properties.C04
+import SC.Properties.Src.C04
 #audit C04
